@@ -62,7 +62,7 @@ def bodies(tier):
 
 
 def bounds(tier):
-    return {"bodies": len(bodies(tier)), "conditions": len(conditions(tier)), "argument_types": len(ATOMS) + len(UNIONS), "argument_kind_patterns": len(KINDS)}
+    return {"bodies": len(bodies(tier)), "bodies_two_parameter_variadic_family": len(v_bodies(tier)), "calls_per_body_second_family": sum(len(V_T) ** (2 if c[1] else 1) for c in V_CALLS), "conditions": len(conditions(tier)), "argument_types": len(ATOMS) + len(UNIONS), "argument_kind_patterns": len(KINDS)}
 
 
 CH = 12
@@ -70,12 +70,13 @@ CH = 12
 
 def units(tier):
     n = len(bodies(tier))
-    return [(tier, i, min(n, i + CH)) for i in range(0, n, CH)]
+    nv = len(v_bodies(tier))
+    return [(tier, i, min(n, i + CH)) for i in range(0, n, CH)] + [("v", tier, i, min(nv, i + 6)) for i in range(0, nv, 6)]
 
 
 # ---- reference interpreter of the specification (atomic argument types only) ---------------------------
 
-_SUB = {("bool", "int"), ("Literal[1]", "int"), ("Literal['a']", "str")}
+_SUB = {("bool", "int"), ("Literal[1]", "int"), ("Literal['a']", "str"), ("Literal[0]", "int")}
 
 
 def _compat(a, t, exclude_any):
@@ -92,21 +93,25 @@ class Unspecified(Exception):
 
 
 def _prim(p, env):
-    m = re.match(r"is_of_type\(x, (.*?)(, exclude_any=False)?\)$", p)
+    m = re.match(r"is_of_type\((x|z), (.*?)(, exclude_any=False)?\)$", p)
     if m:
-        return _compat(env["x"], m.group(1), m.group(2) is None)
-    m = re.match(r"x (is not|is|==|!=) (.*)$", p)
+        if env[m.group(1)] == "?":
+            raise Unspecified()        # the type of a parameter whose argument kind is UNKNOWN
+        return _compat(env[m.group(1)], m.group(2), m.group(3) is None)
+    m = re.match(r"(x|z) (is not|is|==|!=) (.*)$", p)
     if m:
-        op, const = m.groups()
+        var, op, const = m.groups()
         lit = "None" if const == "None" else "Literal[%s]" % const.replace('"', "'")
-        a = env["x"]
+        a = env[var]
+        if a == "?":
+            raise Unspecified()
         if a in ("int", "str", "bool") :
             raise Unspecified()        # a non-literal class against a constant: the spec does not say whether the comparison can be decided
         r = _compat(a, lit, True)
         return r if op in ("is", "==") else not r
-    m = re.match(r"is_(provided|positional|keyword)\((y|k)\)$", p)
+    m = re.match(r"is_(provided|positional|keyword)\((y|k|z|args|kwargs)\)$", p)
     if m:
-        kind = env[m.group(2)]
+        kind = env.kinds[m.group(2)] if hasattr(env, "kinds") else env[m.group(2)]
         return {"provided": kind in ("POSITIONAL", "KEYWORD"), "positional": kind == "POSITIONAL", "keyword": kind == "KEYWORD"}[m.group(1)]
     if p.startswith("sys.version_info"):
         return True
@@ -144,9 +149,12 @@ def _cond(c, env):
         v, et, ef = _cond(c[4:], env)
         return (not v), ef, et
     v = _prim(c, env)
-    m = re.match(r"is_of_type\(x, (\w+), exclude_any=False\)$", c)
-    if v and m and env["x"] == "Any":
-        return v, dict(env, x=m.group(1)), env
+    m = re.match(r"is_of_type\((x|z), (\w+), exclude_any=False\)$", c)
+    if v and m and env[m.group(1)] == "Any":
+        narrowed = dict(env, **{m.group(1): m.group(2)})
+        if hasattr(env, "kinds"):
+            narrowed = _VEnv(narrowed, env.kinds)
+        return v, narrowed, env
     return v, env, env
 
 
@@ -311,7 +319,136 @@ def _run(res, tier, bs, base, only=None):
             res.sample({"body": body, "call": "f(<Union[int, None]>)", "revealed": sorted(got[("Union[int, None]", 0)][0])})
 
 
+# ---- second family: two typed parameters and variadic parameters -----------------------------------------------------
+V_HDR = "def g(x: Union[int, str, None], z: Union[int, str, None] = 0, *args: int, **kwargs: int):"
+V_XZ = ["is_of_type(x, int)", "is_of_type(z, str)", "x == 1", 'z == "a"', "is_of_type(z, int)", "x is None", "z is None", "is_of_type(x, str, exclude_any=False)", 'x != "a"', "z is not None"]
+V_K = ["is_provided(z)", "is_keyword(z)", "is_positional(z)", "is_provided(args)", "is_positional(args)", "is_keyword(args)", "is_provided(kwargs)", "is_keyword(kwargs)", "is_positional(kwargs)"]
+V_T = ["int", "str", "None", "Literal[1]", "Literal['a']", "Any", "Union[Literal[1], Literal['a']]", "Union[int, str]", "Union[int, None]", "Union[Literal[1], None]", "Union[Literal['a'], None]"]
+# (call text with X / Z placeholders, does the call pass z?, kind of z, kind of args, kind of kwargs)
+V_CALLS = [("g(X)", False, "DEFAULT", "DEFAULT", "DEFAULT"), ("g(X, Z)", True, "POSITIONAL", "DEFAULT", "DEFAULT"), ("g(X, z=Z)", True, "KEYWORD", "DEFAULT", "DEFAULT"),
+           ("g(x=X, z=Z)", True, "KEYWORD", "DEFAULT", "DEFAULT"), ("g(z=Z, x=X)", True, "KEYWORD", "DEFAULT", "DEFAULT"), ("g(x=X)", False, "DEFAULT", "DEFAULT", "DEFAULT"),
+           ("g(X, Z, 5)", True, "POSITIONAL", "POSITIONAL", "DEFAULT"), ("g(X, Z, q=5)", True, "POSITIONAL", "DEFAULT", "KEYWORD"), ("g(X, z=Z, q=5)", True, "KEYWORD", "DEFAULT", "KEYWORD"),
+           ("g(X, Z, 5, 6, q=5, r=6)", True, "POSITIONAL", "POSITIONAL", "KEYWORD"), ("g(X, *a)", False, "UNKNOWN", "POSITIONAL", "DEFAULT"), ("g(X, **kwd)", False, "UNKNOWN", "DEFAULT", "KEYWORD"),
+           ("g(X, Z, *a, **kwd)", True, "POSITIONAL", "POSITIONAL", "KEYWORD"), ("g(X, Z, *a)", True, "POSITIONAL", "POSITIONAL", "DEFAULT"), ("g(X, Z, **kwd)", True, "POSITIONAL", "DEFAULT", "KEYWORD")]
+
+
+def v_conditions(tier):
+    out = list(V_XZ) + list(V_K) + ["not %s" % p for p in V_XZ + V_K]
+    n = 6 if tier == "quick" else len(V_XZ)
+    pairs = [(a, b) for a, b in itertools.permutations(V_XZ[:n], 2) if a[:12].count("x") != b[:12].count("x") or tier == "thorough"]
+    pairs += [(a, b) for a in V_XZ[:4] for b in V_K] + [(b, a) for a in V_XZ[:4] for b in V_K] + list(itertools.permutations(V_K[3:], 2))[: (12 if tier == "quick" else 30)]
+    for a, b in pairs:
+        out.append("%s and %s" % (a, b))
+        out.append("%s or %s" % (a, b))
+        out.append("not (%s and %s)" % (a, b))
+    return out
+
+
+def v_bodies(tier):
+    cs = v_conditions(tier)
+    R = RETS
+    out = []
+    for c in cs:
+        out.append("    if %s:\n        return %s\n    else:\n        return %s" % (c, R[0], R[1]))
+    # a conjunction / disjunction over both parameters whose operands are tested again in the following branches
+    xs = [p for p in V_XZ if p.startswith(("x", "is_of_type(x"))][: (3 if tier == "quick" else 5)]
+    zs = [p for p in V_XZ if not p.startswith(("x", "is_of_type(x"))][: (3 if tier == "quick" else 5)]
+    for a, b in itertools.product(xs, zs):
+        for op in ("and", "or"):
+            out.append("    if %s %s %s:\n        return %s\n    elif %s:\n        return %s\n    elif %s:\n        show_error('E2')\n        return %s\n    else:\n        return %s" % (a, op, b, R[0], a, R[1], b, R[2], R[3]))
+            out.append("    if %s %s %s:\n        if %s:\n            return %s\n        else:\n            show_error('E3')\n            return %s\n    elif %s:\n        return %s\n    return %s"
+                       % (a, op, b, a, R[0], R[1], b, R[2], R[3]))
+            out.append("    if %s %s %s:\n        if %s:\n            return %s\n        return %s\n    else:\n        if %s:\n            return %s\n    return %s" % (b, op, a, b, R[0], R[1], a, R[2], R[3]))
+    for a, b in itertools.product(V_K[3:], V_K[:3] + V_K[6:]):
+        if a != b:
+            out.append("    if %s:\n        return %s\n    elif %s:\n        show_error('E2')\n        return %s\n    else:\n        return %s" % (a, R[0], b, R[1], R[2]))
+    return out
+
+
+def _run_v(res, tier, bs, base, only=None):
+    from pa.run import check
+    for bi, body in enumerate(bs):
+        calls = []
+        for ci, (text, has_z, kz, ka, kk) in enumerate(V_CALLS):
+            for tx in V_T:
+                for tz in (V_T if has_z else ["-"]):
+                    calls.append((ci, tx, tz))
+        hdr = [PRE, "@evaluated", V_HDR, body, "def g(x, z=0, *args, **kwargs): return x",
+               "def run(" + ", ".join("a%d: %s" % (j, t) for j, t in enumerate(V_T)) + ", a: Any, kwd: Any) -> None:"]
+        lines = ["    reveal_type(%s)" % V_CALLS[ci][0].replace("X", "a%d" % V_T.index(tx)).replace("Z", "a%d" % V_T.index(tz) if tz != "-" else "Z") for ci, tx, tz in calls]
+        code = "\n".join(hdr + lines) + "\n"
+        first = code.count("\n") - len(lines) + 1
+        fails = check(code)
+        res.transitions += 1
+        by = {}
+        for f in fails:
+            by.setdefault(f.get("lineno"), []).append((f["code"].name, f.get("description", "")))
+        got = {}
+        for n, key in enumerate(calls):
+            d = by.get(first + n, [])
+            rev = [x[1] for x in d if x[0] == "reveal_type"]
+            errs = sorted(x[1].split(": ")[-1].strip() for x in d if x[0] == "incompatible_call")
+            other = [x for x in d if x[0] not in ("reveal_type", "incompatible_call")]
+            got[key] = (_parse_revealed(rev[0]) if rev else frozenset(["<none>"]), tuple(errs), other)
+        ck = _cond_kind(body) + ("+z" if "z" in re.sub(r"is_\w+\(z\)", "", body) else "") + ("+var" if "args)" in body else "")
+        for n, (ci, tx, tz) in enumerate(calls):
+            if only is not None and [ci, tx, tz] != only:
+                continue
+            res.states += 1
+            text, has_z, kz, ka, kk = V_CALLS[ci]
+            order = 5 * 10 ** 8 + (base + bi) * 10000 + n
+            case = {"family": "v", "body": body, "call": [ci, tx, tz], "order": order}
+            rv, errs, other = got[(ci, tx, tz)]
+            desc = "@evaluated %s\n%s\ncall %s with X: %s%s" % (V_HDR, body, text, tx, "" if tz == "-" else ", Z: " + tz)
+            if other:
+                res.violation({"kind": "unexpected-code", "codes": ",".join(sorted({o[0] for o in other})), "cond": ck, "family": "v"}, case, "%s gives %s" % (desc, other[:1]))
+                continue
+            mx, mz = _members(tx), (_members(tz) if tz != "-" else ["-"])
+            if len(mx) == 1 and len(mz) == 1:
+                env = {"x": tx, "z": (tz if has_z else ("Literal[0]" if kz == "DEFAULT" else "?")), "args": ka, "kwargs": kk}
+                env["z "] = kz
+                kinds = {"z": kz, "args": ka, "kwargs": kk}
+                try:
+                    er, ee = interpret(body, _VEnv(env, kinds))
+                except Unspecified:
+                    res.outcomes["v-atom:unspecified"] += 1
+                    continue
+                res.validated += 1
+                exp_r = frozenset([er])
+                ok = rv == exp_r and list(errs) == ee
+                res.outcomes["v-atom:%s" % ("agree" if ok else "differ")] += 1
+                if not ok:
+                    res.violation({"kind": "interpreter-disagrees", "what": "result" if rv != exp_r else "errors", "cond": ck, "x": tx, "z": tz, "family": "v", "zkind": kz, "akind": ka, "kwkind": kk, "call": text}, case,
+                                  "%s: the specification gives %s with errors %s; pyanalyze gives %s with errors %s" % (desc, er, ee, sorted(rv), list(errs)))
+            else:
+                res.validated += 1
+                mem = [(ci, a, b) for a in mx for b in mz]
+                want_r = frozenset().union(*[got[m][0] for m in mem])
+                want_e = tuple(sorted(set().union(*[set(got[m][1]) for m in mem])))
+                ok = rv == want_r and tuple(sorted(set(errs))) == want_e
+                res.outcomes["v-union:%s" % ("law-holds" if ok else "law-broken")] += 1
+                if not ok:
+                    res.violation({"kind": "union-law", "what": "result" if rv != want_r else "errors", "cond": ck, "has_any": str(int("Any" in tx + tz)), "family": "v",
+                                   "unions": str(int(len(mx) > 1)) + str(int(len(mz) > 1)), "zkind": kz}, case,
+                                  "%s: the member combinations give %s / errors %s, the unions give %s / errors %s" % (desc, sorted(want_r), list(want_e), sorted(rv), list(errs)))
+        if (base + bi) % 53 == 0:
+            res.sample({"family": "v", "body": body})
+
+
+class _VEnv(dict):
+    """environment of the second family: types of x and z, kinds of z / args / kwargs (a name is looked up as a type by the type primitives and as a kind by is_provided & co)"""
+
+    def __init__(self, types, kinds):
+        super().__init__(types)
+        self.kinds = kinds
+
+
 def run_unit(unit):
+    if unit[0] == "v":
+        _, tier, lo, hi = unit
+        res = UnitResult()
+        _run_v(res, tier, v_bodies(tier)[lo:hi], lo)
+        return res
     tier, lo, hi = unit
     res = UnitResult()
     _run(res, tier, bodies(tier)[lo:hi], lo)
@@ -320,6 +457,9 @@ def run_unit(unit):
 
 def replay(case):
     res = UnitResult()
+    if case.get("family") == "v":
+        _run_v(res, "quick", [case["body"]], (case.get("order", 0) - 5 * 10 ** 8) // 10000, only=case["call"])
+        return list(res.viol.values())
     _run(res, "quick", [case["body"]], case.get("order", 0) // 1000, only=case["call"])
     return list(res.viol.values())
 
